@@ -312,3 +312,36 @@ func init() {
 	mutant("stream-limit-default-zero", "config-reaches-enforcement", "server.go", "	if sc.MaxConcurrentStreams <= 0 {", "	if sc.MaxConcurrentStreams < 0 {")
 	mutant("send-window-starts-wrong", "config-reaches-enforcement", "serverConn.go", "	sc.clientWindow = int64(defaultWindowSize)", "	sc.clientWindow = int64(defaultDataFrameSize)")
 }
+
+// Variants for hpack-primitives, dec-effects and hpack-table-accounting.
+func init() {
+	mutant("readint-mask-off", "hpack-primitives", "hpack.go", "	b0 := byte(1<<n - 1)", "	b0 := byte(1<<n + 1)")
+	mutant("readint-short-cursor", "hpack-primitives", "hpack.go", "		return b[1:], uint64(b[0] & b0), nil", "		return b[2:], uint64(b[0] & b0), nil")
+	mutant("readint-short-value-octet", "hpack-primitives", "hpack.go", "		return b[1:], uint64(b[0] & b0), nil", "		return b[1:], uint64(b[1] & b0), nil")
+	mutant("readint-loop-starts-late", "hpack-primitives", "hpack.go", "	for i := 1; i < len(b); i++ {", "	for i := 2; i < len(b); i++ {")
+	mutant("readint-shift-base", "hpack-primitives", "hpack.go", "		if shift := (i - 1) * 7; shift >= 63 {", "		if shift := (i + 1) * 7; shift >= 63 {")
+	mutant("readint-empty-guard-gone", "hpack-primitives", "hpack.go", "func readInt(n int, b []byte) ([]byte, uint64, error) {\n	if len(b) == 0 {\n		return b, 0, ErrUnexpectedSize\n	}\n", "func readInt(n int, b []byte) ([]byte, uint64, error) {\n")
+	mutant("readint-stop-bit", "hpack-primitives", "hpack.go", "		if b[i]&128 != 128 {", "		if b[i]&128 == 128 {")
+	mutant("appendint-prefix-octet-index", "hpack-primitives", "hpack.go", "		dst[len(dst)-1] |= byte(index)", "		dst[len(dst)-2] |= byte(index)")
+	mutant("appendint-empty-test-inverted", "hpack-primitives", "hpack.go", "	if len(dst) == 0 {\n		dst = append(dst, 0)\n	}\n	b0 := uint64(1<<bits - 1)", "	if len(dst) != 0 {\n		dst = append(dst, 0)\n	}\n	b0 := uint64(1<<bits - 1)")
+	mutant("readstring-hbit-mask", "hpack-primitives", "hpack.go", "	mustDecode := b[0]&128 == 128 // huffman encoded", "	mustDecode := b[0]&129 == 129 // huffman encoded")
+	mutant("readstring-length-prefix", "hpack-primitives", "hpack.go", "	b, n, err := readInt(7, b)\n	if err != nil {\n		return b, dst, err", "	b, n, err := readInt(8, b)\n	if err != nil {\n		return b, dst, err")
+	mutant("readstring-exact-length-refused", "hpack-primitives", "hpack.go", "	if uint64(len(b)) < n {", "	if uint64(len(b)) <= n {")
+	mutant("appendstring-hbit-value", "hpack-primitives", "hpack.go", "		dst[nn] |= 128 // setting H bit", "		dst[nn] |= 64 // setting H bit")
+	mutant("appendstring-mark-off", "hpack-primitives", "hpack.go", "	dst = append(dst, 0)\n	nn := len(dst) - 1\n", "	dst = append(dst, 0)\n	nn := len(dst) - 2\n")
+	mutant("dec-indexed-not-copied", "dec-effects", "hpack.go", "		hf2.CopyTo(hf)\n", "")
+	mutant("dec-name-mode-inverted-inc", "dec-effects", "hpack.go", "		if c != 64 { // Read key as index", "		if c == 64 { // Read key as index")
+	mutant("dec-name-mode-mask-noindex", "dec-effects", "hpack.go", "		if c&15 != 0 { // Reading key as index", "		if c&7 != 0 { // Reading key as index")
+	mutant("dec-indexed-name-dropped", "dec-effects", "hpack.go", "			hf.SetKeyBytes(hf2.KeyBytes())\n", "")
+	mutant("dec-literal-name-stale-prefix", "dec-effects", "hpack.go", "			b, dst, err = readString(dst[:0], b)\n			if err == nil {\n				hf.SetKeyBytes(dst)\n			}\n\n			*scratch = dst\n			releaseScratch(scratch)\n		}\n\n		// Reading value\n		if err == nil {\n			if len(b) == 0 {\n				// The field is cut short: its value is in the bytes that have\n				// not arrived yet.\n				return b, ErrUnexpectedSize\n			}\n\n			scratch := acquireScratch()\n			dst := *scratch\n\n			b, dst, err = readString(dst[:0], b)\n			if err == nil {\n				hf.SetValueBytes(dst)\n				// add", "			b, dst, err = readString(dst[:1], b)\n			if err == nil {\n				hf.SetKeyBytes(dst)\n			}\n\n			*scratch = dst\n			releaseScratch(scratch)\n		}\n\n		// Reading value\n		if err == nil {\n			if len(b) == 0 {\n				// The field is cut short: its value is in the bytes that have\n				// not arrived yet.\n				return b, ErrUnexpectedSize\n			}\n\n			scratch := acquireScratch()\n			dst := *scratch\n\n			b, dst, err = readString(dst[:0], b)\n			if err == nil {\n				hf.SetValueBytes(dst)\n				// add")
+	mutant("dec-size-update-always-refused", "dec-effects", "hpack.go", "		if !blockStart || fieldsProcessed > 0 {", "		if !blockStart || fieldsProcessed >= 0 {")
+	mutant("dec-size-update-after-field", "dec-effects", "hpack.go", "		if !blockStart || fieldsProcessed > 0 {", "		if !blockStart || fieldsProcessed > 1 {")
+	mutant("dec-empty-block-guard-gone", "dec-effects", "hpack.go", "loop:\n	if len(b) == 0 {\n		return b, nil\n	}\n\n	c = b[0]", "loop:\n	if len(b) == 1 {\n		return b, nil\n	}\n\n	c = b[0]")
+	mutant("next-not-block-start", "dec-effects", "hpack.go", "	return hp.nextField(hf, true, 0, b)", "	return hp.nextField(hf, true, 1, b)")
+	mutant("entry-size-overhead", "hpack-table-accounting", "headerField.go", "	return uint32(len(hf.key) + len(hf.value) + 32)", "	return uint32(len(hf.key) + len(hf.value) + 31)")
+	mutant("table-size-not-summed", "hpack-table-accounting", "hpack.go", "		n += hf.Size()", "		n = hf.Size()")
+	mutant("evict-adds-size", "hpack-table-accounting", "hpack.go", "		tableSize -= hp.dynamic[n].Size()", "		tableSize += hp.dynamic[n].Size()")
+	mutant("evict-skips-oldest", "hpack-table-accounting", "hpack.go", "	for n = 0; n < len(hp.dynamic) && tableSize > hp.maxTableSize; n++ {", "	for n = 1; n < len(hp.dynamic) && tableSize > hp.maxTableSize; n++ {")
+	mutant("full-match-on-either", "hpack-table-accounting", "hpack.go", "		if fullMatch = bytes.Equal(hf.key, hf2.key) && bytes.Equal(hf.value, hf2.value); fullMatch {", "		if fullMatch = bytes.Equal(hf.key, hf2.key) || bytes.Equal(hf.value, hf2.value); fullMatch {")
+	mutant("size-update-limit-not-stored", "hpack-table-accounting", "hpack.go", "	hp.maxTableSizeSettings = size\n", "")
+}
